@@ -52,7 +52,8 @@ stored in `s` under header slot `slot` on pages ≥ 2 and the other slot loses t
   commit shows the new one and is committed again;
 * `allocator_model_delivers_the_premise`: the page-level guarantee of the allocator model (Layer A: a protocol-abiding
   writer writes no page of the snapshot it started from) is exactly the byte-level premise `KeepsState`;
-* `fresh_file_is_committed`: the premises are satisfiable (a four-page file as `init_file` writes it).
+* `fresh_file_is_committed`, `second_commit_premises_hold`, `two_commit_file_opens_as_second_state`: the premises are
+  satisfiable (a four-page file as `init_file` writes it; a concrete second commit on a six-page one).
 What these do NOT cover: that the real commit writes only pages the previous state does not own is the
 hypothesis `CommitOK.sep` — Layer A proves it of the allocator model (`reader_pages_never_written`, C03), and
 the run evaluates it on the observed writes of every real commit against the decoded previous file
@@ -332,5 +333,108 @@ theorem fresh_file_is_committed :
     · rfl
     · rw [hb]; rfl
   rw [hnone]; trivial
+
+/-- six zeroed pages: room for a second commit -/
+def blankFile6 : Src := { size := 6144, get := fun _ => 0 }
+
+/-- non-vacuity: writing `freshState` onto six blank pages (data, then the header into slot 0) gives a committed
+file, so `CommittedFile` has an inhabitant and the theorems above have a starting point -/
+theorem fresh_six_page_file_is_committed :
+    CommittedFile 1024 (fun _ => 0) (commitFile Gen.layout 1024 (fun _ => 0) 0 freshState blankFile6) 0 freshState := by
+  have hE := layout_fit_for_commit.1
+  have hL := layout_fit_for_commit.2
+  have hruns : freshState.runs (fun _ => 0) = [(2, 0), (3, 0)] := by
+    rw [Opened.runs, BucketView.allRuns_eq]
+    rfl
+  have hfits : freshState.view.fits Gen.layout 1024 (fun _ => 0) blankFile6.size := by
+    rw [BucketView.fits_eq]
+    exact ⟨by decide, by intro x hx; cases hx⟩
+  have hdisj : (freshState.runs (fun _ => 0)).Pairwise runsDisjoint := by
+    rw [hruns]; simp [runsDisjoint]
+  obtain ⟨hst, hfl, hsz, hout⟩ := commitData_stores Gen.layout 1024 hE hL (by decide) (fun _ => 0) freshState blankFile6
+    hfits hdisj (by decide) (by decide) (by decide) (by decide) (by intro x hx; cases hx)
+  have hab : ∀ r ∈ freshState.runs (fun _ => 0), 2 ≤ r.1 := by
+    rw [hruns]; intro r hr; simp at hr; rcases hr with rfl | rfl <;> decide
+  have hok : ViewOK freshState.view := ViewOK.mk _ (by decide) (by
+    show SubsOK (subBuckets (Tree.flatten (Tree.leaf 3 []))) []
+    simp [Tree.flatten, subBuckets]; exact SubsOK.nil)
+  have hh := holds_of_header_write Gen.layout Gen.hashOrder 1024 hL (Layout.WF.of _ hE) (by decide) (by decide)
+    (fun _ => 0) (commitData Gen.layout 1024 (fun _ => 0) freshState blankFile6) 0 freshState (by decide)
+    (by rw [hsz]; decide) (seal_fits Gen.layout Gen.hashOrder _ (by decide)) (seal_valid _ _ _) rfl hst hok rfl rfl hfl hab
+  refine ⟨hh, hab, ?_⟩
+  -- slot 1 is still blank: its page-type byte is 0, not META
+  have hb : ((commitFile Gen.layout 1024 (fun _ => 0) 0 freshState blankFile6).get (1 * 1024 + Gen.layout.pgType)) = 0 := by
+    show (writeMetaPage Gen.layout 1024 0 freshState.hdr _).get _ = 0
+    rw [(writeMetaPage_frame Gen.layout 1024 0 freshState.hdr _ _ hL (by decide) (by right; decide)).1,
+      hout _ (by rw [hruns]; intro r hr; simp at hr; rcases hr with rfl | rfl <;> (left; decide))]
+    rfl
+  have hnone : slotValid Gen.layout Gen.hashOrder (commitFile Gen.layout 1024 (fun _ => 0) 0 freshState blankFile6) 1024
+      (1 - 0) = none := by
+    unfold slotValid
+    simp only []
+    split
+    · rfl
+    · rw [hb]; rfl
+  rw [hnone]; trivial
+
+
+/-- the first committed file on six pages -/
+def file1 : Src := commitFile Gen.layout 1024 (fun _ => 0) 0 freshState blankFile6
+
+theorem file1_size : file1.size = 6144 := by
+  show (writeMetaPage Gen.layout 1024 0 freshState.hdr (commitData Gen.layout 1024 (fun _ => 0) freshState blankFile6)).size = 6144
+  rw [(writeMetaPage_frame Gen.layout 1024 0 freshState.hdr _ 5000 layout_fit_for_commit.2 (by decide) (by right; decide)).2]
+  show (writeFreelistPage Gen.layout 1024 _ _ _ (writeView Gen.layout 1024 (fun _ => 0) freshState.view blankFile6)).size = 6144
+  rw [writeFreelistPage, applyWrites_size, writeView_size]
+  rfl
+
+/-- the state of a second transaction that put one key: a new root leaf on page 4, the new free list (the two pages
+of the first state) on page 5, transaction id 1, header for slot 1 -/
+def secondState : Opened :=
+  { hdr := MetaRec.seal Gen.layout Gen.hashOrder
+      { metaPage := 1, magic := Gen.layout.magic, version := Gen.layout.version, pagesize := 1024, rootPage := 4,
+        nextInt := 0, numPages := 6, freelistPage := 5, txId := 1, hash := 0 }
+    view := { tree := .leaf 4 [([107], .kv [118])], nextInt := 0, subs := [] }
+    free := [2, 3]
+    flOverflow := 0 }
+
+/-- NON-VACUITY OF THE COMMIT STEP: the premises `CommitOK` of `completed_commit_shows_new_state` (hence `HeaderOK`,
+`KeepsState`, … of the general theorems) hold for a concrete second commit on the fresh file -/
+theorem second_commit_premises_hold :
+    CommitOK Gen.layout Gen.hashOrder 1024 (fun _ => 0) file1 freshState secondState := by
+  have hr1 : freshState.runs (fun _ => 0) = [(2, 0), (3, 0)] := by
+    rw [Opened.runs, BucketView.allRuns_eq]; rfl
+  have hr2 : secondState.runs (fun _ => 0) = [(5, 0), (4, 0)] := by
+    rw [Opened.runs, BucketView.allRuns_eq]; rfl
+  refine
+    { fit := ?_, disj := ?_, above := ?_, sep := ?_, flfile := ?_, flfit := ?_, flid := ?_, flrun := ?_, free := ?_,
+      ok := ?_, root := rfl, next := rfl, hfits := seal_fits Gen.layout Gen.hashOrder _ (by decide),
+      valid := seal_valid _ _ _, ps := rfl, newer := ?_, file := ?_ }
+  · rw [file1_size, BucketView.fits_eq]
+    exact ⟨by decide, by intro x hx; cases hx⟩
+  · rw [hr2]; simp [runsDisjoint]
+  · rw [hr2]; intro r hr; simp at hr; rcases hr with rfl | rfl <;> decide
+  · rw [hr1, hr2]; intro a ha b hb; simp at ha hb
+    rcases ha with rfl | rfl <;> rcases hb with rfl | rfl <;> simp [runsDisjoint]
+  · rw [file1_size]; decide
+  · decide
+  · decide
+  · decide
+  · intro x hx; simp [secondState] at hx; rcases hx with rfl | rfl <;> decide
+  · exact ViewOK.mk _ (by decide) (by
+      show SubsOK (subBuckets (Tree.flatten (Tree.leaf 4 [([107], LeafVal.kv [118])]))) []
+      simp [Tree.flatten, subBuckets]; exact SubsOK.nil)
+  · show (1 : Nat) > 0; decide
+  · rw [file1_size]; decide
+
+/-- … and so the two-commit file opens as exactly the second state, is committed again, and still stores the first -/
+theorem two_commit_file_opens_as_second_state :
+    openFile Gen.layout Gen.hashOrder 1024 2 (commitFile Gen.layout 1024 (fun _ => 0) 1 secondState file1) = some secondState ∧
+    CommittedFile 1024 (fun _ => 0) (commitFile Gen.layout 1024 (fun _ => 0) 1 secondState file1) 1 secondState ∧
+    Holds Gen.layout Gen.hashOrder 1024 (fun _ => 0) (commitFile Gen.layout 1024 (fun _ => 0) 1 secondState file1) 0 freshState :=
+  completed_commit_shows_new_state 1024 (by decide) (fun _ => 0) file1 0 (Or.inl rfl) freshState secondState
+    fresh_six_page_file_is_committed second_commit_premises_hold 2 (by
+      show secondState.view.weight ≤ 2
+      rw [BucketView.weight_eq]; decide)
 
 end Jamm.Props.C02
